@@ -5,6 +5,9 @@ import (
 	"go/ast"
 	"go/token"
 	"go/types"
+	"regexp"
+	"sort"
+	"strconv"
 	"strings"
 )
 
@@ -176,6 +179,13 @@ func (vc *VC) mergeStates(n int, ss []*State) *State {
 			// force all components to be explicit: already done above via heapGet; pick max epoch
 			if s.epoch > m.epoch {
 				m.epoch = s.epoch
+			}
+		}
+	}
+	for _, s := range ss[1:] {
+		for comp, ws := range s.writes {
+			for _, w := range ws {
+				m.logWrite(comp, w)
 			}
 		}
 	}
@@ -764,9 +774,8 @@ type modSet struct {
 	alloc bool
 }
 
-// dryRun executes body once on a clone (obligations discarded) to learn what it may modify.
-func (vc *VC) dryRun(st *State, run func(s *State) []Outcome) modSet {
-	ms := modSet{env: map[types.Object]bool{}, comps: map[string]bool{}}
+// dryExec executes run on a clone of st with all obligations discarded.
+func (vc *VC) dryExec(st *State, run func(s *State) []Outcome) []Outcome {
 	vc.dry++
 	savedObls := len(vc.obls)
 	savedCounts := map[string]int{}
@@ -776,12 +785,20 @@ func (vc *VC) dryRun(st *State, run func(s *State) []Outcome) modSet {
 	savedLoop := vc.loopOrd
 	savedPaths := vc.paths
 	c := st.clone()
+	c.writes = nil
 	outs := run(c)
 	vc.obls = vc.obls[:savedObls]
 	vc.oblCount = savedCounts
 	vc.loopOrd = savedLoop
 	vc.paths = savedPaths
 	vc.dry--
+	return outs
+}
+
+// dryRun executes body once on a clone (obligations discarded) to learn what it may modify.
+func (vc *VC) dryRun(st *State, run func(s *State) []Outcome) modSet {
+	ms := modSet{env: map[types.Object]bool{}, comps: map[string]bool{}}
+	outs := vc.dryExec(st, run)
 	for _, o := range outs {
 		if o.st.epoch != st.epoch {
 			ms.all = true
@@ -806,6 +823,86 @@ func (vc *VC) dryRun(st *State, run func(s *State) []Outcome) modSet {
 		}
 	}
 	return ms
+}
+
+var symSuffixRe = regexp.MustCompile(`_(\d+)$`)
+var epochSuffixRe = regexp.MustCompile(`_e(\d+)$`)
+
+// loopInvariantTerm: t mentions no symbol created after counter f1 / epoch e1.
+func loopInvariantTerm(t string, f1 int, e1 int) bool {
+	if t == "*" || strings.Contains(t, "!") {
+		return false
+	}
+	syms := map[string]bool{}
+	symbolsOf(t, syms)
+	for s := range syms {
+		if m := epochSuffixRe.FindStringSubmatch(s); m != nil {
+			if n, _ := strconv.Atoi(m[1]); n > e1 {
+				return false
+			}
+			continue
+		}
+		if m := symSuffixRe.FindStringSubmatch(s); m != nil {
+			if n, _ := strconv.Atoi(m[1]); n > f1 {
+				return false
+			}
+		}
+	}
+	return true
+}
+
+// loopFrame: for the heap components havocked at a loop head, assume that cells whose outer index is
+// never written by the body keep their pre-loop value. The written indices are collected by executing the
+// body once more from the havocked state; only indices that do not depend on loop-variant data are used.
+func (vc *VC) loopFrame(pre, h *State, ms modSet, f1, e1 int, run func(s *State) []Outcome) map[string][]string {
+	framed := map[string][]string{}
+	if ms.all || len(ms.comps) == 0 {
+		return framed
+	}
+	outs := vc.dryExec(h, run)
+	writes := map[string]map[string]bool{}
+	for _, o := range outs {
+		for comp, ws := range o.st.writes {
+			if writes[comp] == nil {
+				writes[comp] = map[string]bool{}
+			}
+			for _, w := range ws {
+				writes[comp][w] = true
+			}
+		}
+	}
+	for _, comp := range sortedKeys(ms.comps) {
+		srt := vc.compSort[comp]
+		if strings.Count(srt, "(Array") == 0 {
+			continue
+		}
+		ok := true
+		var idxs []string
+		for w := range writes[comp] {
+			if !loopInvariantTerm(w, f1, e1) {
+				ok = false
+				break
+			}
+			idxs = append(idxs, w)
+		}
+		if !ok {
+			continue
+		}
+		sort.Strings(idxs)
+		preT := vc.heapGet(pre, comp, srt)
+		newT := h.heap[comp]
+		var conds []string
+		for _, ix := range idxs {
+			conds = append(conds, smtNot(smtEq("a!f", ix)))
+		}
+		if strings.Count(srt, "(Array") == 2 {
+			h.assume("(forall ((a!f Int) (i!f Int)) (! " + smtImp(smtAnd(conds...), "(= (select "+newT+" (pr a!f i!f)) (select "+preT+" (pr a!f i!f)))") + " :pattern ((select " + newT + " (pr a!f i!f))) :qid loopframe))")
+		} else {
+			h.assume("(forall ((a!f Int)) (! " + smtImp(smtAnd(conds...), "(= (select "+newT+" a!f) (select "+preT+" a!f))") + " :pattern ((select " + newT + " a!f)) :qid loopframe))")
+		}
+		framed[comp] = idxs
+	}
+	return framed
 }
 
 func sameValue(a, b *Value) bool {
@@ -843,18 +940,17 @@ func (vc *VC) havocMods(st *State, ms modSet) {
 			st.env[obj] = nv
 		}
 	}
+	if (ms.alloc || ms.all) && !ms.all {
+		vc.havocAlloc(st)
+	}
 	if ms.all {
 		vc.havocAllHeap(st)
 	} else {
 		for _, comp := range sortedKeys(ms.comps) {
-			st.heap[comp] = vc.fresh("H_"+comp, vc.compSort[comp])
+			n := vc.fresh("H_"+comp, vc.compSort[comp])
+			st.heap[comp] = n
+			vc.heapSymWF(n, comp, vc.compSort[comp], st.alloc)
 		}
-	}
-	if ms.alloc || ms.all {
-		na := vc.fresh("Alloc", "(Array Int Bool)")
-		// allocation only grows
-		vc.addAllocMono(st, st.alloc, na)
-		st.alloc = na
 	}
 }
 
@@ -863,8 +959,11 @@ func (vc *VC) addAllocMono(st *State, old, nw string) {
 }
 
 func (vc *VC) havocAllHeap(st *State) {
+	vc.havocAlloc(st)
 	vc.nepoch++
 	st.epoch = vc.nepoch
+	vc.epochAlloc[st.epoch] = st.alloc
+	st.logWrite("*heap", "*")
 	for k := range st.heap {
 		if strings.HasPrefix(k, "const:") {
 			continue
@@ -923,7 +1022,7 @@ func (vc *VC) loopCommon(st *State, lc loopCtx, atHead func(s *State), cond func
 	}
 	// 1. what does an iteration modify?
 	savedOrd := vc.loopOrd
-	ms := vc.dryRun(st, func(s *State) []Outcome {
+	iteration := func(s *State) []Outcome {
 		if atHead != nil {
 			atHead(s)
 		}
@@ -937,7 +1036,8 @@ func (vc *VC) loopCommon(st *State, lc loopCtx, atHead func(s *State), cond func
 			res = append(res, o)
 		}
 		return res
-	})
+	}
+	ms := vc.dryRun(st, iteration)
 	vc.loopOrd = savedOrd
 	// 2. invariants hold on entry
 	if atHead != nil {
@@ -955,7 +1055,20 @@ func (vc *VC) loopCommon(st *State, lc loopCtx, atHead func(s *State), cond func
 	}
 	// 3. arbitrary iteration
 	h := st.clone()
+	f1, e1 := vc.nfresh, vc.nepoch
 	vc.havocMods(h, ms)
+	framed := vc.loopFrame(st, h, ms, f1, e1, iteration)
+	vc.loopOrd = savedOrd
+	// what the loop writes is also a write of the enclosing code
+	for comp := range ms.comps {
+		if idxs, ok := framed[comp]; ok {
+			for _, ix := range idxs {
+				h.logWrite(comp, ix)
+			}
+		} else {
+			h.logWrite(comp, "*")
+		}
+	}
 	if atHead != nil {
 		atHead(h)
 	}
@@ -1060,9 +1173,8 @@ func (vc *VC) execRange(st *State, x *ast.RangeStmt, label string) []Outcome {
 		m := vc.evalExpr(st, x.X)
 		mp := mapCompPrefix(xt)
 		// iteration order is unconstrained: each iteration sees an arbitrary key of the (entry) domain
-		dom0 := sel(vc.heapGet(st, mp+".dom", "(Array Int (Array Int Bool))"), m.Term)
-		domName := vc.fresh("rangedom", "(Array Int Bool)")
-		st.assume(smtEq(domName, dom0))
+		domH := vc.heapGet(st, mp+".dom", "(Array Int (Array Int Bool))")
+		mref := m.Term
 		more := vc.fresh("more", "Bool")
 		_ = more
 		return vc.loopCommon(st, lc, nil,
@@ -1070,7 +1182,7 @@ func (vc *VC) execRange(st *State, x *ast.RangeStmt, label string) []Outcome {
 			func(cs *State) []Outcome {
 				k := vc.freshValue(cs, "key", u.Key())
 				kt := vc.mapKeyTerm(x, k)
-				cs.assume(sel(domName, kt))
+				cs.assume(sel2(domH, mref, kt))
 				if x.Key != nil {
 					if id, ok := x.Key.(*ast.Ident); !ok || id.Name != "_" {
 						if x.Tok == token.DEFINE {
